@@ -149,7 +149,7 @@ class B(object):
             self.features.add('boolop')
             c3 = dict(ctx, no_walrus=True) if self.profile == 'c03' else ctx
             return '(%s %s %s)' % (self.expr(ctx, depth + 1, forbid), self.pick(['and', 'or']), self.expr(c3, depth + 1, forbid))
-        if k == 16 and not ctx.get('no_walrus') and not ctx.get('in_class_direct') and not (
+        if k == 16 and not getattr(self, 'no_walrus_stmt', False) and not ctx.get('no_walrus') and not ctx.get('in_class_direct') and not (
                 self.profile != 'c01' and getattr(self, 'stmt_has_comp', False)):
             self.features.add('walrus')
             self.stmt_has_walrus = True
@@ -327,6 +327,20 @@ class B(object):
     # ---- targets
     def target(self, ctx, allow_star=True):
         k = self.draw(st.integers(0, 9))
+        if self.chance(7) and ctx.get('bound'):
+            # an unpacking target with an attribute / subscript element: it binds nothing itself, but what stands inside it is READ
+            # (the index or the receiver), possibly nowhere else
+            a = self.name()
+            cands = [n for n in ctx.get('bound', []) if n != a and n in POOL]
+            if not cands:
+                return a, [a]
+            # (the element is stored after the value was evaluated and after the elements left of it: it must not read a name
+            # this very statement binds - evaluation order against text order is the family of the listed walrus findings)
+            r = self.pick(cands)
+            self.no_walrus_stmt = True
+            self.features.add('target-with-attribute-or-subscript-element')
+            form = self.pick(['use(%(r)s).q, %(a)s', '%(a)s, use(%(r)s).q', 'use()[%(r)s], %(a)s', '%(a)s, (use(1)[%(r)s], %(r)s.z)', '[%(r)s.q, %(a)s]'])
+            return form % {'a': a, 'r': r}, [a]
         if k < 6:
             n = self.name()
             return n, [n]
@@ -384,6 +398,7 @@ class B(object):
         self.budget[0] -= 1
         self.stmt_has_comp = False
         self.stmt_has_walrus = False
+        self.no_walrus_stmt = False
         in_func = ctx.get('in_func', False)
         in_loop = ctx.get('in_loop', False)
         choices = ['assign'] * 6 + ['use'] * 4 + ['annassign', 'chain', 'lam']
